@@ -119,6 +119,7 @@ def generate(tier, rng):
   global CASE_TIMEOUT
   CASE_TIMEOUT = 900 if tier == 'thorough' else 120
   blocks = [None] + [2 ** j for j in range(1, 9)]
+  cfg_cases = _cfg_cases(tier, rng) if tier != 'search' else []
   if tier == 'search':
     # widened random search around the quantifier: random (n, block), random shapes / keys
     for k in range(0, 15):
@@ -184,6 +185,8 @@ def generate(tier, rng):
   for ti, tr in enumerate(TREES):
     for _ in range(1 if tier == 'quick' else 3):
       yield {'kind': 'P', 'tree': ti, 'seed': rng.randrange(1, 2 ** 30), 'key': rng.randrange(2 ** 31)}
+  for c in cfg_cases:
+    yield c
 
 
 def _nz(v):
@@ -457,7 +460,7 @@ def run_P(case):
 # --------------------------------------------------------------------------
 # wave 3 extras (judged by the oracle only): every check is a named boolean
 
-XSUBS = ['forms', 'boundary', 'reuse', 'interleave', 'dtypes', 'contexts']
+XSUBS = ['forms', 'boundary', 'reuse', 'interleave', 'dtypes', 'contexts', 'compose', 'order', 'magnitude']
 
 
 def _close(a, b, rtol=1e-6, atol=1e-6):
@@ -615,11 +618,119 @@ def run_X(case):
     guard('rotation-inside-jit', lambda: _close(jax.jit(lambda v, k: wh.structured_rotation(v, k)[0])(x7, key), r, 1e-6, 1e-6))
     guard('tree-rotation-inside-jit', lambda: _close(jax.jit(lambda t, k: wh.structured_rotation_pytree(t, k)[0])({'a': x7}, key)['a'],
                                                        wh.structured_rotation_pytree({'a': x7}, key)[0]['a'], 1e-6, 1e-6))
+  elif sub == 'compose':
+    k2 = jax.random.PRNGKey(case['key'] + 9)
+    x9 = xj[:24].reshape(4, 6)
+    r1, s1 = wh.structured_rotation(x9, key)
+    r2, s2 = wh.structured_rotation(r1, k2)                  # rotation of a rotated vector
+    b1 = wh.inverse_structured_rotation(wh.inverse_structured_rotation(r2, k2, s2), key, s1)
+    guard('rotate-twice-invert-in-reverse', lambda: _close(b1, x9, atol=1e-4) and r2.shape == (32,) and
+          _close(np.sum(np.asarray(r2, np.float64) ** 2), np.sum(np.asarray(x9, np.float64) ** 2), rtol=1e-4))
+    tr = {'a': xj[:5], 'b': [xj[5:8], {'c': xj[8:9]}]}
+    ro, sh = wh.structured_rotation_pytree(tr, key)
+    ro2, sh2 = wh.structured_rotation_pytree(ro, k2)        # tree rotation of a rotated tree
+    bk = wh.inverse_structured_rotation_pytree(wh.inverse_structured_rotation_pytree(ro2, k2, sh2), key, sh)
+    guard('tree-rotate-twice', lambda: all(_close(a, b, atol=1e-4) for a, b in zip(jax.tree_util.tree_leaves(bk), jax.tree_util.tree_leaves(tr))))
+    guard('transform-of-transform', lambda: _as_ints(wh.walsh_hadamard_transform(wh.walsh_hadamard_transform(xj, 4), 16))[0] ==
+          [64 * int(v) for v in xs])
+  elif sub == 'order':
+    # dict keys presented in NON-sorted insertion order, names that look like internal ones, per-key values that differ
+    tr = {'z': xj[:5], 'rng': xj[5:12], 'a': {'shape': xj[12:15], 'b': xj[15:16]}, 'm': xj[16:24].reshape(2, 4), '__mask__': xj[24:27]}
+    ro, sh = wh.structured_rotation_pytree(tr, key)
+    bk = wh.inverse_structured_rotation_pytree(ro, key, sh)
+    def same():
+      return (list(bk) == list(tr) or sorted(bk) == sorted(tr)) and all(
+          _close(bk[k] if k != 'a' else bk['a']['shape'], tr[k] if k != 'a' else tr['a']['shape'], atol=1e-4) for k in tr) and \
+          _close(bk['a']['b'], tr['a']['b'], atol=1e-4) and bk['m'].shape == (2, 4)
+    guard('unsorted-keys-round-trip', same)
+    def per_key():
+      # every key is rotated as its own leaf: norms match key by key
+      return all(_close(np.sum(np.asarray(ro[k], np.float64) ** 2), np.sum(np.asarray(tr[k], np.float64) ** 2), rtol=1e-4)
+                 for k in ('z', 'rng', 'm', '__mask__'))
+    guard('per-key-norms', per_key)
+    rev = dict(reversed(list(tr.items())))                    # same mapping, opposite insertion order
+    guard('insertion-order-irrelevant', lambda: all(_close(a, b, 0, 0) for a, b in zip(
+        jax.tree_util.tree_leaves(wh.structured_rotation_pytree(rev, key)[0]), jax.tree_util.tree_leaves(ro))))
+  elif sub == 'magnitude':
+    for sc in (0.0, 1e-38, 1e-30, 1e-7, 1.0, 1e6, 1e15, 1e30):
+      def f(sc=sc):
+        x = jnp.asarray((xs[:13] * np.float32(sc)).astype(np.float32))
+        r, shp = wh.structured_rotation(x, key)
+        b = wh.inverse_structured_rotation(r, key, shp)
+        x64 = np.asarray(x, np.float64)
+        n_in, n_out = np.sum((x64 / max(sc, 1e-45)) ** 2), np.sum((np.asarray(r, np.float64) / max(sc, 1e-45)) ** 2)
+        ok = bool(np.all(np.isfinite(np.asarray(r))) and np.all(np.isfinite(np.asarray(b))))
+        if sc == 0.0:
+          return ok and bool(np.all(np.asarray(r) == 0) and np.all(np.asarray(b) == 0))
+        if sc < 1e-30:
+          return ok                                 # subnormal scale: XLA flushes to zero; only finiteness is required
+        tol = 1e-4
+        return ok and abs(n_out - n_in) <= tol * n_in and float(np.max(np.abs(np.asarray(b, np.float64) - x64))) <= tol * sc * 8
+      guard(f'rotation-scale-{sc:g}', f)
+    for sc in (1e-30, 1e30):
+      guard(f'transform-scale-{sc:g}', lambda sc=sc: _close(np.asarray(wh.walsh_hadamard_transform(xj * np.float32(sc)), np.float64) / sc,
+                                                            ref.astype(np.float64), rtol=1e-5, atol=1e-3))
   return {'err': None, 'checks': chk}
 
 
+# --------------------------------------------------------------------------
+# wave 4: global JAX configuration (a subprocess per setting, tools/harness/c11_c18_cfg_worker.py)
+
+CFGS = {'threefry-nonpartitionable': {'JAX_THREEFRY_PARTITIONABLE': '0'},
+        'prng-rbg': {'JAX_DEFAULT_PRNG_IMPL': 'rbg'},
+        'x64': {'JAX_ENABLE_X64': '1'},
+        'rank-promotion-raise': {'JAX_NUMPY_RANK_PROMOTION': 'raise'},
+        'disable-jit': {'JAX_DISABLE_JIT': '1'}}
+_PROCS = {}
+
+
+def _start_cfg(name, seed):
+  import os
+  import subprocess
+  import sys
+  env = dict(os.environ)
+  env.update(CFGS[name])
+  worker = os.path.join(os.path.dirname(os.path.abspath(__file__)), 'c11_c18_cfg_worker.py')
+  return subprocess.Popen([sys.executable, worker, PROP.lower(), str(seed)], env=env, stdout=subprocess.PIPE,
+                          stderr=subprocess.DEVNULL, text=True)
+
+
+def _cfg_cases(tier, rng):
+  """The quick tier starts its one non-default setting right away (it runs while the other cases do)."""
+  names = ['threefry-nonpartitionable'] if tier != 'thorough' else list(CFGS)
+  cases = [{'kind': 'G', 'cfg': n, 'seed': rng.randrange(1, 2 ** 30)} for n in names]
+  if tier == 'quick':
+    for c in cases:
+      _PROCS[(c['cfg'], c['seed'])] = _start_cfg(c['cfg'], c['seed'])
+  return cases
+
+
+def run_G(case):
+  import json
+  p = _PROCS.pop((case['cfg'], case['seed']), None) or _start_cfg(case['cfg'], case['seed'])
+  try:
+    out, _ = p.communicate()
+  except BaseException:
+    p.kill()
+    raise
+  line = [l for l in out.split('\n') if l.startswith('CFGRESULT ')]
+  if not line:
+    return {'ok': False, 'rc': p.returncode, 'n': 0, 'violations': [['worker-failed', f'no result (exit code {p.returncode})', None]]}
+  r = json.loads(line[-1][len('CFGRESULT '):])
+  return {'ok': True, 'rc': p.returncode, 'n': r['n'], 'config': r['config'], 'violations': r['violations']}
+
+
+def _oracle_G(case, obs):
+  return [(f'cfg.{case["cfg"]}.{k}', f'under {CFGS[case["cfg"]]}: {m} [inner case {json_short(c)}]') for k, m, c in obs['violations']]
+
+
+def json_short(c):
+  import json
+  return json.dumps({k: v for k, v in (c or {}).items() if k not in ('x', 'y', 'v')})[:200]
+
+
 def run(case):
-  return {'X': run_X, 'T': run_T, 'H': run_H, 'R': run_R, 'B': run_B, 'P': run_P}[case['kind']](case)
+  return {'G': run_G, 'X': run_X, 'T': run_T, 'H': run_H, 'R': run_R, 'B': run_B, 'P': run_P}[case['kind']](case)
 
 
 # --------------------------------------------------------------------------
@@ -656,6 +767,8 @@ def _rot_checks(out, tag, shape, xs, rot, rec_shape, back, back_shape, hd_dev):
 def oracle(case, obs):
   out = []
   kind = case['kind']
+  if kind == 'G':
+    return _oracle_G(case, obs)
   if kind == 'T':
     n, block = case['n'], case['block']
     ok, nd = _valid_block(n, block)
@@ -754,7 +867,7 @@ def _robs(rot, rec_shape, back, back_shape, inv, inv_shape):
 
 def encode(case, obs):
   kind = case['kind']
-  if kind == 'X':
+  if kind in ('X', 'G'):
     return None
   if kind == 'T':
     v, n = case['vec'], case['n']
@@ -810,9 +923,13 @@ def describe(case, obs):
     return {'kind': 'T', 'log2_n': exps(case['n']), 'block': str(case['block']), 'axes': str(nd),
             'vec': sorted(case['vec'])[0], 'result': obs.get('err') or 'ok'}
   if case['kind'] in ('R', 'B'):
-    return {'kind': case['kind'], 'ndim': len(case['shape'])}
+    size = int(np.prod(case['shape'])) if case['shape'] else 1
+    return {'kind': case['kind'], 'ndim': len(case['shape']),
+            'hypothesis': 'size in 1..2^56, one sign per input coordinate' if 1 <= size <= 2 ** 56 else 'outside C18_rotation_* hypotheses'}
   if case['kind'] == 'X':
     return {'kind': 'X.' + case['sub']}
+  if case['kind'] == 'G':
+    return {'kind': 'G.' + case['cfg'], 'inner_cases': obs.get('n')}
   return {'kind': case['kind']}
 
 
